@@ -22,8 +22,9 @@ VARIABLES tid,      \* which trace
           stale,    \* the role -> positions index may disagree with toks
           fixPhase, skip, lastPS,  \* --fix_phase, skip_phase, last (phase, subphase) that fixed
           indentFresh,             \* token indents were recomputed after the last structural / vertical change
-          normDone                 \* the phase-1 clean-up has happened in this fix run
-vars == <<tid, l, toks, stale, fixPhase, skip, lastPS, indentFresh, normDone>>
+          normDone,                \* the phase-1 clean-up has happened in this fix run
+          lastPre                  \* the last rule that fixed in the current (phase, subphase) has prerequisites
+vars == <<tid, l, toks, stale, fixPhase, skip, lastPS, indentFresh, normDone, lastPre>>
 
 Chk(name, ok) == IF ok THEN TRUE ELSE PrintT(<<"V", Traces[tid].tid, l, name>>)
 
@@ -34,9 +35,9 @@ Init == /\ tid \in 1..NT
         /\ toks = <<>>
         /\ stale = FALSE
         /\ fixPhase = 7 /\ skip = {} /\ lastPS = <<0, 0>>
-        /\ indentFresh = TRUE /\ normDone = FALSE
+        /\ indentFresh = TRUE /\ normDone = FALSE /\ lastPre = FALSE
 
-Same == UNCHANGED <<toks, stale, fixPhase, skip, lastPS, indentFresh, normDone>>
+Same == UNCHANGED <<toks, stale, fixPhase, skip, lastPS, indentFresh, normDone, lastPre>>
 
 \* --------------------------------------------------------------------------------------------- Parse
 Parse ==
@@ -49,7 +50,7 @@ Parse ==
   /\ Chk("C02_CommentEndsLine", CommentEndsLine(E.toks))
   /\ toks' = E.toks /\ stale' = FALSE
   /\ indentFresh' = TRUE /\ normDone' = FALSE         \* set_indent_map follows the parse
-  /\ UNCHANGED <<fixPhase, skip, lastPS>>
+  /\ UNCHANGED <<fixPhase, skip, lastPS, lastPre>>
 
 \* --------------------------------------------------------------------------------------------- Fix
 CodeCtxLeft(s, pos)  == LET c == NV(Code(SubSeq(s, IF pos > 40 THEN pos - 40 ELSE 1, pos))) IN SubSeq(c, IF Len(c) > 3 THEN Len(c) - 2 ELSE 1, Len(c))
@@ -115,6 +116,8 @@ FixStep ==
      /\ Chk("C13_PhaseOrder", e.phase > lastPS[1] \/ (e.phase = lastPS[1] /\ e.sub >= lastPS[2]))
      \* ---- schedule of rule_list.fix (mechanisms behind C09): the phase-1 clean-up precedes phase 2, and the indent
      \*      levels the phase-4 (indent) rules apply were recomputed after the last phase 1-3 change
+     \* inside a sub-phase the rules with prerequisites run after the others (rule_list.enforce_prerequisites)
+     /\ Chk("C13_PrerequisitesLast", ~(<<e.phase, e.sub>> = lastPS /\ lastPre /\ ~e.prereq))
      /\ Chk("C09_CleanUpBeforePhase2", e.phase < 2 \/ normDone \/ 1 \in skip)
      /\ Chk("C09_IndentRecomputedBeforePhase4", e.phase < 4 \/ 4 \in skip \/ indentFresh)
      /\ Chk("C20_OnlyListed", \/ e.sel.m \in {-1, 1}
@@ -123,6 +126,7 @@ FixStep ==
      /\ stale' = IF e.remap THEN FALSE ELSE (stale \/ Proj(t2, F_R) # Proj(toks, F_R))
      /\ lastPS' = <<e.phase, e.sub>>
      /\ indentFresh' = IF e.phase <= 3 THEN FALSE ELSE indentFresh
+     /\ lastPre' = e.prereq
      /\ UNCHANGED <<fixPhase, skip, normDone>>
 
 \* --------------------------------------------------------------------------------------------- index check at the next analysis
@@ -132,7 +136,7 @@ IdxStep ==
   \* the model's own prediction (remap discipline of FixPipeline): an index the model expects to be fresh must be fresh
   /\ Chk("C18_RemapDiscipline", stale \/ E.ok)
   /\ stale' = ~E.ok
-  /\ UNCHANGED <<toks, fixPhase, skip, lastPS, indentFresh, normDone>>
+  /\ UNCHANGED <<toks, fixPhase, skip, lastPS, indentFresh, normDone, lastPre>>
 
 AnalyzeStep ==
   /\ E.e = "Analyze"
@@ -153,23 +157,23 @@ NormStep ==
   /\ Chk("C13_CleanUpBelongsToPhase1", 1 \notin skip /\ lastPS[1] <= 1)
   /\ toks' = E.toks /\ stale' = FALSE /\ normDone' = TRUE
   /\ indentFresh' = FALSE
-  /\ UNCHANGED <<fixPhase, skip, lastPS>>
+  /\ UNCHANGED <<fixPhase, skip, lastPS, lastPre>>
 
 SetIndentStep ==
   /\ E.e = "SetIndent"
   /\ indentFresh' = TRUE
-  /\ UNCHANGED <<toks, stale, fixPhase, skip, lastPS, normDone>>
+  /\ UNCHANGED <<toks, stale, fixPhase, skip, lastPS, normDone, lastPre>>
 
 FixBegin ==
   /\ E.e = "FixBegin"
-  /\ fixPhase' = E.fixPhase /\ skip' = Range(E.skip) /\ lastPS' = <<0, 0>> /\ normDone' = FALSE
+  /\ fixPhase' = E.fixPhase /\ skip' = Range(E.skip) /\ lastPS' = <<0, 0>> /\ normDone' = FALSE /\ lastPre' = FALSE
   /\ UNCHANGED <<toks, stale, indentFresh>>
 
 FixEnd ==
   /\ E.e = "FixEnd"
   /\ Chk("C18_NoUnobservedChange", toks = E.toks)
   /\ toks' = E.toks
-  /\ UNCHANGED <<stale, fixPhase, skip, lastPS, indentFresh, normDone>>
+  /\ UNCHANGED <<stale, fixPhase, skip, lastPS, indentFresh, normDone, lastPre>>
 
 \* --------------------------------------------------------------------------------------------- C08, C10, C19
 Reparse ==
